@@ -67,6 +67,12 @@ def pair_types(ctx):
     bad["opts"] = dict(bad["opts"], size=len(A) + 1)
     P("Wrefused(k,A)||W(k2,A)", prep_warm + [{"op": "remove", "cache": "<C>", "key": "k2"}],
       [bad, W(ctx, "k2", A, 11)], ["k", "k2"], [sA])
+    # the key's bucket holds bytes but not one usable record (here: records whose integrity addresses nothing)
+    junk = [{"op": "index_insert", "cache": "<C>", "key": "k", "opts": {"sri": "sha256-AA", "time": "5", "size": 1}},
+            {"op": "index_insert", "cache": "<C>", "key": "k", "opts": {"sri": "sha1-", "time": "6", "size": 1}}]
+    prep_nok = [q for q in prep_warm if not (q["op"] == "remove" and q.get("key") == "k")]     # no tombstone of k either
+    P("W(k,A)||metadata(k)-junk-only-bucket", prep_nok + junk, [W(ctx, "k", A, 10), {"op": "metadata", "cache": "<C>", "key": "k"}], ["k"], [sA])
+    P("W(k,A)||list-junk-only-bucket", prep_nok + junk, [W(ctx, "k", A, 10), {"op": "list", "cache": "<C>"}], ["k"], [sA], exhaustive=False)
     long_hist = [W(ctx, "k", b"gen-%d" % g, 100 + g) for g in range(24)] + prep_old
     P("W(k,A)||metadata(k)-after-25-records", long_hist, [W(ctx, "k", A, 10), {"op": "metadata", "cache": "<C>", "key": "k"}], ["k"], [sA, sOLD])
     P("W(k,A)||W(k,B)-after-25-records", long_hist, [W(ctx, "k", A, 10), W(ctx, "k", B, 11)], ["k"], [sA, ref.sri("sha256", B)])
@@ -95,6 +101,8 @@ def data_of(ctx, req):
 def model_after_prep(ctx, prep):
     m = Model()
     for q in prep:
+        if q["op"] == "index_insert":
+            continue        # only used for records no reader accepts: no effect on the model
         step = {"req": q, "data": data_of(ctx, q)}
         fake = {"ok": {"sri": ref.sri("sha256", step["data"])}} if step["data"] is not None else {"ok": {}}
         fake["w0"], fake["w1"] = "0", "0"
@@ -194,7 +202,7 @@ def judge_schedule(ctx, pt, mode, rdir, cache, res, kind, cold):
     ptx = dict(pt, prep=prep)
     good = serial_orders(ctx, ptx, cache, resps, finals, freqs)
     acked = sum(1 for q, r in zip(pt["ops"], resps) if q["op"] in ("writer", "write", "remove") and q.get("key") is not None and ev.is_ok(r))
-    acked += sum(1 for q in prep if q["op"] in ("writer", "write", "remove") and q.get("key") is not None)
+    acked += sum(1 for q in prep if q["op"] in ("writer", "write", "remove", "index_insert") and q.get("key") is not None)
     sprobs = structural(cache, acked)
     det = {"pair": pt["name"], "mode": mode, "schedule": list(sched), "interleaving": list(order), "cold": cold,
            "results": [ev.brief(r) for r in resps], "sysmon_argv": res.argv[:16],
@@ -590,6 +598,7 @@ def run(ctx):
     nrand_async = 20 if ctx.quick else 250
     rand_pts = [p for p in pts if p["name"] in ("W(k,A)||W(k,B)", "Wbig(k,A)||Wbig(k,B)", "Wbig(k,A)||remove(k)", "W(k1,A)||W(k2,A)", "W(k,A)||read(k)", "W(k,A)||list",
                                                 "W(k,A)||remove_hash(A)", "W(k,A)||W(k,B)||W(k,C)", "remove_hash||read(k)", "Wrefused(k,A)||W(k2,A)",
+                                                "W(k,A)||metadata(k)-junk-only-bucket", "W(k,A)||list-junk-only-bucket",
                                                 "W(k,A)||remove(k)||metadata(k)")]
     ri = {}
     for pi, pt in enumerate(rand_pts):
